@@ -80,7 +80,18 @@ func (te *tableEngine) tableGameOpen() error {
 			return err
 		}
 	}
-	te.table = newTable
+	// commit what openGame worked out on its clone into the live table rather than replacing the table by the clone:
+	// PlayerJoin, PlayerRedeemChips and UpdateBlind take no engine lock and may have written to the live table meanwhile
+	te.table.State.Status = newTable.State.Status
+	te.table.State.GameCount = newTable.State.GameCount
+	te.table.State.CurrentDealerSeat = newTable.State.CurrentDealerSeat
+	te.table.State.CurrentSBSeat = newTable.State.CurrentSBSeat
+	te.table.State.CurrentBBSeat = newTable.State.CurrentBBSeat
+	te.table.State.GamePlayerIndexes = newTable.State.GamePlayerIndexes
+	for i, player := range newTable.State.PlayerStates {
+		te.table.State.PlayerStates[i].IsParticipated = player.IsParticipated
+		te.table.State.PlayerStates[i].Positions = player.Positions
+	}
 	te.emitEvent("tableGameOpen", "")
 
 	// 啟動本手遊戲引擎
